@@ -50,6 +50,45 @@ SCALARS = [None, True, False, 0, 1, 2, 5, -3, lit(""), lit("a"), lit("b"), lit("
 LITCHARS = "abxy/_ -.="
 FIRST = 900                                # function atom: returns its first argument
 
+# ----------------------------------------------------------------------------- option NAMES at the edges of what the library accepts
+# A template reference is whatever stands between an unescaped '{' and the next '}' (confectioner: r"(?<!\\){([^\\]*?)}"), cut at the
+# dots; a part is a list index when int() accepts it, a parameter when it reads ':identifier:', and a dictionary key otherwise.  So an
+# option name may hold hyphens, spaces (also leading / trailing), slashes, any punctuation but { } \ and the dot, any non-ASCII character,
+# tabs and line breaks, and text that merely looks numeric ('1e3', '0x1F').  The scenario language speaks of atoms; a *name profile* maps
+# the atoms of this module's key universe to such names for the implementation side (the model and the independent substitution never
+# see names).  Every name holds a character that no generated literal / scalar text holds and none is part of another one, so that the
+# observation text can be mapped back to atoms (core.canon_names).
+NAME_PROFILES = [
+    ("hyphens, spaces, slashes", {10: "data-dir", 11: "env-name", 12: "file name", 13: "région/est", 14: "MODULE-2", 15: "per-item", 16: "item (2)",
+                                  17: "no-such-key", 18: "out dir", 20: "my section", 21: "sub-key", 22: "ü", 23: "top/level", 24: "mid level",
+                                  25: "leaf-level", 26: "gone/", 30: "the-list"}),
+    ("punctuation, case, padding", {10: "#1", 11: "+m", 12: "Mm", 13: "mM", 14: "100%", 15: " pad ", 16: "'h'", 17: '"h"', 18: "m*",
+                                    20: "@sec", 21: "~", 22: "!?", 23: "(h)", 24: "<h>", 25: "h|h", 26: "$HOME", 30: "[m]", }),
+    ("non-ASCII, tabs, line breaks, numeric look-alikes", {10: "數據", 11: "ключ", 12: "na\u00efve\u00a0h", 13: "tab\tm", 14: "1e3", 15: "línea\nm", 16: "0x1F",
+                                                          17: "\u2603", 18: "ü:", 20: "sección", 21: ":9:", 22: "\u00a7", 23: "\U0001F600", 24: "k;", 25: "½",
+                                                          26: "¿m?", 30: "liste\u200b"}),
+]
+
+
+class profile:
+    """context manager: the implementation-side names (core.ALIASES) and the substitution's depth budget of one scenario"""
+
+    def __init__(self, scn):
+        self.names, self.maxdepth = scn.get("names"), scn.get("maxdepth")
+
+    def __enter__(self):
+        self.saved = (core.ALIASES, core.ALIASES_INV, Spec.MAXDEPTH)
+        if self.names:
+            core.ALIASES = dict(self.names)
+            core.ALIASES_INV = {v: k for k, v in core.ALIASES.items()}
+        if self.maxdepth:
+            Spec.MAXDEPTH = self.maxdepth
+        return self
+
+    def __exit__(self, *exc):
+        core.ALIASES, core.ALIASES_INV, Spec.MAXDEPTH = self.saved
+        return False
+
 
 def rank_of(key):
     return REF_ORDER.index(key)
@@ -302,6 +341,64 @@ def malformed_scenario(rng):
     return dict(ftable={FIRST: ("first",)}, env={}, exprs=exprs, ops=ops, pool=pool, defect="malformed")
 
 
+# ----------------------------------------------------------------------------- long reference chains, negative list indices
+CH0, CHSEC = 200, 40                       # chain links are the atoms CH0, CH0+1, ... (flat, or inside the section CHSEC)
+MODEL_HOPS = 30                            # the model's resolution budget (Model/EvalRun.v default_fuel = 40) is safely above this many hops
+
+
+def gen_chain_scenario(rng, hops, nested):
+    """options in which link i is a templated string referencing link i+1, `hops` links long, ending in plain values; read from its head by
+    a Template (with a parameter), by an Option whose stored value is the first link, by an Option whose templated default mentions it, and
+    from a link close to the end (a short chain in the same dictionary).  Neighbours: an end value deleted / a middle link made plain."""
+    link = (lambda i: K(CHSEC, CH0 + i)) if nested else (lambda i: K(CH0 + i))
+    ends = [K(10), K(SEC, SX)]
+    vals = {}
+    for i in range(hops - 1):
+        r = rng.random()
+        if r < 0.3:
+            vals[link(i)] = S(("ref", link(i + 1)))                                  # the whole value is one reference
+        elif r < 0.7:
+            vals[link(i)] = S(("ref", link(i + 1)), ("lit", rng.choice(LITCHARS)))
+        else:
+            vals[link(i)] = S(("lit", rng.choice(LITCHARS)), ("ref", link(i + 1)), ("escl",), ("escr",))
+    vals[link(hops - 1)] = S(("ref", ends[0]), ("lit", "-"), ("ref", ends[1]))
+    vals[ends[0]], vals[ends[1]] = rng.choice([lit("a"), 5, None]), rng.choice([lit("b"), 0, True])
+    base = {15: rng.choice([1, lit("q")])}
+    order = list(vals)
+    rng.shuffle(order)
+    for k in order:
+        set_path(base, k, vals[k])
+    mid = rng.randrange(hops // 2, hops - 1)
+    near_end = rng.randrange(max(0, hops - 9), hops)
+    exprs = [("template", (("lit", "x"), ("ref", link(0)), ("par", 1)), [(1, ("option", K(15), ("value", ("j", 3)), None))]),
+             ("option", link(0), None, None),
+             ("option", K(17), ("template", (("ref", link(0)), ("lit", "/"), ("ref", K(15))), []), None),
+             ("template", (("ref", link(near_end)),), []),
+             ("option", link(mid), ("value", ("j", 1)), None)]
+    pool = [base, del_path(base, ends[1]), put_path(base, link(mid), rng.choice([7, lit("b")])), del_path(base, link(rng.randrange(1, hops)))]
+    ops = [(m, i, False, False, o) for o in pool for i in range(len(exprs)) for m in METHODS]
+    scn = dict(ftable={FIRST: ("first",)}, env={}, exprs=exprs, ops=ops, pool=pool, defect="chain", maxdepth=hops + 6, hops=hops)
+    if hops > MODEL_HOPS:
+        scn["oracle_only"] = True          # beyond the model's budget: the implementation is measured against the independent substitution only
+    return scn
+
+
+def gen_negidx_scenario(rng):
+    """list elements addressed from the end ({L.-1}): Python's list indexing, which the lookup of a dotted key inherits; the model's
+    indices are naturals, so this family is measured against the independent substitution only"""
+    n = rng.randint(1, 3)
+    items = [rng.choice([0, 1, None, lit("a"), S(("ref", K(10))), S(("lit", "b"), ("ref", K(SEC, SX)))]) for _ in range(n)]
+    base = {LST: items, 10: rng.choice([2, lit("x y")]), SEC: {SX: rng.choice([5, lit("a"), False])}, 15: 1}
+    neg = lambda: K(LST, "i-%d" % rng.randint(1, 3))
+    exprs = [("template", (("lit", "a"), ("ref", neg()), ("lit", "/"), ("ref", K(LST, "i%d" % rng.randint(0, 2)))), []),
+             ("option", neg(), None, None),
+             ("option", K(17), ("template", (("ref", neg()), ("lit", "="), ("ref", K(10))), []), None),
+             ("option", K(11), ("value", ("j", 0)), None)]
+    pool = [base, {**base, LST: items[:-1]}, put_path(base, K(11), S(("ref", neg()), ("lit", "."))), {}]
+    ops = [(m, i, False, False, o) for o in pool for i in range(len(exprs)) for m in METHODS]
+    return dict(ftable={FIRST: ("first",)}, env={}, exprs=exprs, ops=ops, pool=pool, defect="negative-index", oracle_only=True)
+
+
 # ----------------------------------------------------------------------------- the independent substitution
 
 class Undef(Exception):
@@ -326,7 +423,7 @@ def jget(o, key):
                 raise KeyError(key)
             cur = cur[s[1]]
         elif isinstance(cur, list):
-            if s[0] != "i" or not 0 <= s[1] < len(cur):
+            if s[0] != "i" or not -len(cur) <= s[1] < len(cur):          # a negative index counts from the end (what Python lists do)
                 raise KeyError(key)
             cur = cur[s[1]]
         else:
@@ -1016,7 +1113,7 @@ INTERPRETERS = [
     ("a worker thread of a plain interpreter started with -X dev", ["-X", "dev"], {}, True),
 ]
 CHILD_MARK = "@@C09-CHILD@@"
-CHILD_SIZES = {True: (10, 3, 3, 3, 5, 3), False: (60, 15, 15, 10, 30, 15)}
+CHILD_SIZES = {True: (10, 3, 3, 3, 5, 3, 1, 3, 2), False: (60, 15, 15, 10, 30, 15, 6, 12, 8)}
 
 
 def _child_env(extra):
@@ -1115,7 +1212,8 @@ def oracle_pass(scns, models, model_ok, rng, quick):
     read_cases = []   # (scenario index, expr index, dict, spec reads) for the reads triangle
     samples = []
     xstats = dict(spelling_scenarios=0, spellings=0, spelling_calls=0, history_scenarios=0, history_calls=0, model_lines=0)
-    for si, scn in enumerate(scns):
+    def one(si, scn):
+        nonlocal mism
         if scn.get("history"):
             fs, mm, n = run_history(scn, (models[si] if models is not None else None))
             xstats["model_lines"] += len(scn["ops"]) if models is not None else 0
@@ -1128,7 +1226,7 @@ def oracle_pass(scns, models, model_ok, rng, quick):
                 if finding:
                     tagged[finding] = tagged.get(finding, 0) + 1
                 violations.append(dict(f, finding=finding, stream="history", history=True))
-            continue
+            return
         if scn.get("spelling"):
             fs, mm, n, k, nm = check_spellings(scn, (models[si] if models is not None else None), rng, budget=2 if quick else 6)
             xstats["model_lines"] += nm
@@ -1157,7 +1255,7 @@ def oracle_pass(scns, models, model_ok, rng, quick):
                     ostats["depth_hist"][sp.maxdepth] = ostats["depth_hist"].get(sp.maxdepth, 0) + 1
                     if sp.reads and want[0] in ("ok", "missing"):
                         distinct.add(lib.stable_hash([repr(e), repr(o)]))
-                    if want[0] == "ok" and not sp.par_braces and stream != "malformed":
+                    if want[0] == "ok" and not sp.par_braces and stream != "malformed" and not scn.get("oracle_only"):
                         read_cases.append((si, i, o, sorted(sp.reads)))
                     if len(samples) < 6 and sp.maxdepth >= 2 and want[0] == "ok":
                         samples.append(dict(expr=repr(e)[:300], options=repr(core.py_json(o))[:300], text=want[1],
@@ -1193,12 +1291,21 @@ def oracle_pass(scns, models, model_ok, rng, quick):
                     violations.append(dict(f, finding=finding, expr_index=i, options=repr(o), stream=stream + "/deleted-read",
                                            scenario_repr=cp.dump_scn(dict(scn, ops=[], pool=[]))))
 
+    for si, scn in enumerate(scns):
+        with profile(scn):
+            n0 = len(violations)
+            one(si, scn)
+            if scn.get("name_profile"):
+                ostats["by_stream"]["names: " + scn["name_profile"]] = ostats["by_stream"].get("names: " + scn["name_profile"], 0) + 1
+                for v in violations[n0:]:
+                    v["desc"] = f"[option names: {scn['name_profile']}] " + v.get("desc", v.get("kind", ""))
+                    v["names"] = {core.name_of(a): f"K{a}" for a in scn["names"]}
     return violations, mism, ostats, xstats, read_cases, samples, distinct, tagged
 
 
 def build_scenarios(rng, quick, sizes):
     depth = 3 if quick else 5
-    n_main, n_d1, n_d13, n_mal, n_sp, n_hist = sizes
+    n_main, n_d1, n_d13, n_mal, n_sp, n_hist, n_names, n_chain, n_neg = sizes
     scns = list(CORPUS)
     for _, cs in corpus_for(PID):            # scenarios of repaired defects registered for this property
         pool = []
@@ -1218,20 +1325,64 @@ def build_scenarios(rng, quick, sizes):
         scns.append(gen_spelling_scenario(rng, depth if j % 3 else 1))
     for j in range(n_hist):
         scns.append(gen_history(rng, depth if j % 3 else 1))
+    # every stream once more under each profile of unusual option names (n_names main scenarios per profile, one spelling scenario, one history)
+    for label, names in NAME_PROFILES:
+        for j in range(n_names):
+            scns.append(dict(gen_scenario(rng, depth), names=names, name_profile=label))
+        if n_names:
+            scns.append(dict(malformed_scenario(rng), names=names, name_profile=label))
+            scns.append(dict(gen_spelling_scenario(rng, depth), names=names, name_profile=label))
+            scns.append(dict(gen_history(rng, depth), names=names, name_profile=label))
+    # reference chains of 11 .. 40 hops (flat and inside a section); the last one under a name profile
+    for j in range(n_chain):
+        hops = rng.randint(11, MODEL_HOPS) if j % 3 != 2 else rng.randint(MODEL_HOPS + 1, 40)
+        scn = gen_chain_scenario(rng, hops, nested=bool(j % 2))
+        if j == n_chain - 1:
+            scn.update(names=NAME_PROFILES[0][1], name_profile=NAME_PROFILES[0][0])
+        scns.append(scn)
+    for j in range(n_neg):
+        scn = gen_negidx_scenario(rng)
+        if j % 2:
+            label, names = NAME_PROFILES[j // 2 % len(NAME_PROFILES)]
+            scn.update(names=names, name_profile=label)
+        scns.append(scn)
     return scns, depth
 
 
 def run(ctx):
     rng = ctx.rng
     children = start_interpreters(ctx)
-    n_main, n_d1, n_d13, n_mal, n_sp, n_hist = sizes = (48, 10, 10, 8, 14, 8) if ctx.quick else (480, 100, 100, 60, 140, 80)
+    n_main, n_d1, n_d13, n_mal, n_sp, n_hist, n_names, n_chain, n_neg = sizes = (48, 10, 10, 8, 14, 8, 3, 6, 4) if ctx.quick else (480, 100, 100, 60, 140, 80, 30, 60, 40)
     scns, depth = build_scenarios(rng, ctx.quick, sizes)
 
     # 1. correspondence: model vs implementation on the histories
     # small shards: one generated file holds the concatenated observation lines of its scenarios,
     # and Coq's (non tail-recursive) string concatenation overflows the stack on very long ones
-    impls, models, mism, stats = cp.correspondence(ctx, scns, "Cases_C09", shard=10)
-    model_ok = [cp.agrees(il, ml, s) for s, il, ml in zip(scns, impls, models)]
+    # (one run per name profile: the model speaks of atoms, the implementation is run under the profile's names; the scenarios that the
+    # model cannot express - negative indices, chains beyond its resolution budget - are left to the oracle)
+    impls, models, mism, stats = [None] * len(scns), [None] * len(scns), [], {}
+    groups = {}
+    for si, scn in enumerate(scns):
+        if not scn.get("oracle_only"):
+            groups.setdefault(scn.get("name_profile"), []).append(si)
+    for gi, (label, idx) in enumerate(groups.items()):
+        with profile(scns[idx[0]] if label else {}):
+            il, ml, mm, st = cp.correspondence(ctx, [scns[si] for si in idx], "Cases_C09" + (f"_names{gi}" if label else ""), shard=10)
+        for si, a, b in zip(idx, il, ml):
+            impls[si], models[si] = a, b
+        for m_ in mm:
+            if label:
+                m_["where"] = m_.get("where", "") + f" [option names: {label}]"
+                m_["names"] = dict(scns[idx[0]]["names"])
+        mism += mm
+        for k, v in st.items():
+            if isinstance(v, dict):
+                d = stats.setdefault(k, {})
+                for k2, v2 in v.items():
+                    d[k2] = d.get(k2, 0) + v2
+            else:
+                stats[k] = stats.get(k, 0) + v
+    model_ok = [ml is not None and cp.agrees(il, ml, s) for s, il, ml in zip(scns, impls, models)]
 
     # 2./3. oracle + perturbation
     violations, mm, ostats, xstats, read_cases, samples, distinct, tagged = oracle_pass(scns, models, model_ok, rng, ctx.quick)
@@ -1275,7 +1426,10 @@ def run(ctx):
                 "through every public spelling: Option(key, default=str / Template), Option[str], >> f, and inside @Option.namespace classes: Option.auto "
                 "with / without doc, type, >> f, plain string members, annotated members, Option / Template members, item access, implicit / decorated / "
                 "renamed sub-namespaces); a history stream (long-lived Template / Option objects called with ONE options dictionary object edited in place, "
-                "neighbouring dictionaries that compare equal although they differ: 0/False, 1/True and - outside the model - 1.0). Non-trivial = the independent substitution is defined and "
+                "neighbouring dictionaries that compare equal although they differ: 0/False, 1/True and - outside the model - 1.0); every stream once more "
+                "under three profiles of option NAMES at the edges of the accepted charset (hyphens, spaces, slashes, punctuation, case-only differences, "
+                "padding, non-ASCII, tabs, line breaks, numeric look-alikes); reference chains of 11-40 hops, flat and inside a section (up to 30 hops against "
+                "the model, beyond against the independent substitution only); list elements addressed by negative indices (oracle only). Non-trivial = the independent substitution is defined and "
                 "looked up at least one option key; distinct by hash of (expression, dictionary).",
         "samples": samples,
         "traces_validated_against_impl": stats["ops"] + reads_compared + xstats["model_lines"],
@@ -1283,7 +1437,9 @@ def run(ctx):
         "violations": violations,
         "known": known,
         "distribution": dict(stats, oracle=ostats, oracle_failures_tagged=tagged, scenarios=len(scns), reads_compared=reads_compared,
-                             streams=dict(main=n_main, D1=n_d1, D13=n_d13, malformed=n_mal, corpus=len(CORPUS), spelling=n_sp, history=n_hist), extended=xstats, interpreters=interp),
+                             streams=dict(main=n_main, D1=n_d1, D13=n_d13, malformed=n_mal, corpus=len(CORPUS), spelling=n_sp, history=n_hist,
+                                          name_profiles=len(NAME_PROFILES), scenarios_per_name_profile=n_names + 3, chains=n_chain, negative_indices=n_neg,
+                                          oracle_only=sum(1 for x in scns if x.get("oracle_only"))), extended=xstats, interpreters=interp),
         "exhaustive": False,
         "assumptions": ["literal characters exclude { } \\ : (the token view coincides with confectioner's regex scan); floats, cyclic chains in the main stream and "
                         "option values mentioning parameters are not generated",
@@ -1296,6 +1452,11 @@ def run(ctx):
 
 def replay(ctx, payload):
     scn = cp.load_scn(payload["scenario_repr"])
+    with profile(scn):
+        return _replay(ctx, payload, scn)
+
+
+def _replay(ctx, payload, scn):
     o = eval(payload["options"], {"S": S})
     if "interpreter" in payload:                                    # found in a child interpreter: replay it there
         it = payload["interpreter"]
@@ -1315,11 +1476,13 @@ def replay(ctx, payload):
     i = payload["expr_index"]
     scn = dict(scn, pool=[o], ops=[(m, i, False, False, o) for m in ("evaluate", "keys", "explain", "validate")])
     impl = Impl(scn)
-    import random
     fails, sp, want, got = check_case(impl, scn, i, o)
     pf, _ = perturb_case(impl, scn, i, o, sp, got, random.Random(1), budget=50)
     pf = pf + reentrancy_check(impl, i, o)
     if ctx is None:                     # in a child interpreter: the implementation-side oracle only
+        return bool(fails or pf), dict(spec=repr(want), impl=repr(got),
+                                       failures=[{k: v for k, v in f.items() if k != "unreported_keys"} for f in fails + pf])
+    if scn.get("oracle_only"):          # outside what the model can express: the oracle alone decides
         return bool(fails or pf), dict(spec=repr(want), impl=repr(got),
                                        failures=[{k: v for k, v in f.items() if k != "unreported_keys"} for f in fails + pf])
     il = core.run_impl(scn)
